@@ -16,60 +16,10 @@ from .common import use_repo
 use_repo()
 
 
-def _tensor(spec):
-    """{"fmt": {"modes","ordering"}, "dims": [...], "levels": [[]|[pos,crd]], "vals": [...]} -> Tensor (raw arrays)."""
-    from tensora import Tensor
-    from tensora.compile import taco_structure_to_cffi
-
-    modes = tuple(0 if m == "d" else 1 for m in spec["fmt"]["modes"])
-    cffi_t = taco_structure_to_cffi(
-        [list(map(list, lv)) for lv in spec["levels"]],
-        [float(v) for v in spec["vals"]],
-        mode_types=modes,
-        dimensions=tuple(spec["dims"]),
-        mode_ordering=tuple(spec["fmt"]["ordering"]),
-    )
-    return Tensor(cffi_t)
-
-
-def _raw(t):
-    return {"dims": list(t.dimensions), "levels": t.taco_indices, "vals": t.taco_vals,
-            "modes": [m.character for m in t.modes], "ordering": list(t.mode_ordering)}
-
-
-def op_eval_batch(task):
-    """Run one kernel (through tensor_method, the path evaluate uses) on many input sets."""
-    from tensora import tensor_method
-    from tensora.compile import BackendCompiler
-
-    from .kernels import set_capacity
-
-    set_capacity(task.get("cap"))
-    backend = BackendCompiler[task.get("backend", "llvm")]
-    try:
-        fn = tensor_method(task["text"], task["formats"], backend)
-    except Exception as e:  # noqa: BLE001
-        return {"compile_exc": type(e).__name__, "msg": str(e)[:300]}
-    outs = []
-    for inp in task["inputs"]:
-        sys.stdout.write("@@" + json.dumps({"id": task["id"], "progress": inp.get("cid")}) + "\n")
-        sys.stdout.flush()
-        try:
-            args = {name: _tensor(spec) for name, spec in inp["tensors"].items()}
-            out = fn(**args)
-            outs.append({"cid": inp.get("cid"), "out": _raw(out)})
-        except Exception as e:  # noqa: BLE001
-            outs.append({"cid": inp.get("cid"), "exc": type(e).__name__, "msg": str(e)[:300]})
-    return {"outs": outs}
-
-
-OPS = {"eval_batch": op_eval_batch}
+from .native_ops import OPS  # noqa: E402
 
 
 def main():
-    # late registration of the other native operations (kept in their check modules)
-    from . import native_ops  # noqa: F401
-
     for line in sys.stdin:
         line = line.strip()
         if not line:
